@@ -39,7 +39,8 @@ func init() {
 		if err != nil {
 			return J{"harness-error": err.Error()}
 		}
-		curB := b
+		wire := append(make([]byte, 0, 1<<16), b...)
+		curB := wire
 		outs := []any{}
 		seq := uint64(10)
 		for _, r := range jArr(in["rounds"]) {
@@ -100,6 +101,9 @@ func init() {
 				outs = append(outs, e)
 				continue
 			}
+			// the node keeps the agreed outcome in ONE buffer that it overwrites in place every round
+			wire = append(wire[:0], outB...)
+			outB = wire
 			o, err := hp.p.OutcomeCodec.Decode(outB)
 			if err != nil {
 				return J{"harness-error": err.Error()}
@@ -238,7 +242,15 @@ func genC14(g *G) {
 			}
 			rounds = append(rounds, J{"nHonest": nhRound, "ts": S(w.now), "faulty": faulty})
 		}
-		startO := J{"stage": "production", "ts": S(w.now), "defs": mk(start), "va": []any{}, "aggs": []any{}}
+		startVA := []any{}
+		if tag == "same-size-in-place-replacement" {
+			// steady state: every channel of the start outcome already has its validity start, so that the agreed
+			// outcome has the same encoded length before and after the replacements
+			for _, e := range mk(start) {
+				startVA = append(startVA, J{"id": e.(J)["id"], "va": S(uint64(1_600_000_000_000_000_000))})
+			}
+		}
+		startO := J{"stage": "production", "ts": S(w.now), "defs": mk(start), "va": startVA, "aggs": []any{}}
 		g.Emit(J{"op": "llo.converge", "cfg": w.cfgJ(), "start": startO, "target": mk(target), "rounds": rounds, "bound": bound}, tag, "f="+S(w.f), "bound="+S(bound))
 	}
 	n := g.N(120, 1500)
@@ -337,6 +349,18 @@ func genC14(g *G) {
 		start := map[int]J{1: w.smallDef(1, 1), 5: w.smallDef(3, 1)}
 		target := map[int]J{1: many(1), 2: many(2), 3: w.smallDef(7000, 2)}
 		emit(w, start, target, "shared-streams-two-aggregators")
+	}
+	{
+		// eight channels replaced in place by definitions of exactly the same encoded size (two batches of votes):
+		// the agreed outcome keeps its length from round to round
+		w := newWorld(g)
+		w.hasPred = false
+		start, target := map[int]J{}, map[int]J{}
+		for id := 1; id <= 8; id++ {
+			start[id] = J{"format": "2", "streams": []any{J{"sid": S(10 + id), "agg": "1"}}, "opts": ""}
+			target[id] = J{"format": "2", "streams": []any{J{"sid": S(30 + id), "agg": "1"}}, "opts": ""}
+		}
+		emit(w, start, target, "same-size-in-place-replacement")
 	}
 	{
 		// four wide channels that share almost all their streams: 4 × 2 602 mentions in ONE round's votes (more than
